@@ -14,6 +14,11 @@ from . import par
 class Driver:
     """Interface a property driver implements."""
     name = "driver"
+    #: check() may be destructive.  Drivers whose check *needs* to finish the
+    #: SUT before it can be canonicalised (closing a file) keep True; drivers
+    #: whose check perturbs the state (fills caches) set False so that the
+    #: canonical form describes the state the history produced.
+    canon_after_check = True
 
     def fresh(self):
         """Return a new state object (real SUT + reference model)."""
@@ -40,6 +45,14 @@ class Driver:
 
     def config(self):
         return {}
+
+    def blocking(self, viol):
+        """Whether exploration stops at a state showing this violation.
+
+        Successors of a violating state mostly repeat the violation; drivers
+        return False for recorded findings that must not hide what lies
+        beyond them."""
+        return True
 
 
 def digest(obj):
@@ -84,8 +97,12 @@ def _expand(args):
             for o in history:
                 driver.apply(st2, o)
             ob = driver.apply(st2, op)
-            viols = driver.check(st2)
-            key = digest(driver.canon(st2))
+            if driver.canon_after_check:
+                viols = driver.check(st2)
+                key = digest(driver.canon(st2))
+            else:
+                key = digest(driver.canon(st2))
+                viols = driver.check(st2)
         finally:
             driver.close(st2)
         for v in viols:
@@ -99,8 +116,12 @@ def bfs(driver, max_depth, max_dev=0, workers=None, log=None,
         max_states=None):
     """Exhaustive BFS up to max_depth / max_dev. Returns a stats dict."""
     st0 = driver.fresh()
-    v0 = driver.check(st0)
-    k0 = digest(driver.canon(st0))
+    if driver.canon_after_check:
+        v0 = driver.check(st0)
+        k0 = digest(driver.canon(st0))
+    else:
+        k0 = digest(driver.canon(st0))
+        v0 = driver.check(st0)
     driver.close(st0)
     seen = {k0: 0}          # canon -> fewest deviations it was reached with
     frontier = [([], 0)]
@@ -130,7 +151,8 @@ def bfs(driver, max_depth, max_dev=0, workers=None, log=None,
                 if viols:
                     violations.extend(viols)
                     stats["violating_states"] += 1
-                    continue  # do not expand beyond a violating state
+                    if any(driver.blocking(v) for v in viols):
+                        continue  # do not expand beyond a violating state
                 if key in seen and seen[key] <= nd:
                     stats["merged_by_canon"] += 1
                     continue
